@@ -95,6 +95,24 @@ pub struct World {
     pub chain: Vec<(u64, Block)>,
     pub known_users: Vec<u64>,
     pub panicked: bool,
+    /// an operation did not return within the step time-out (a handler stuck on a lock or a wait): the
+    /// worker thread is abandoned, nothing more can be asked of this tower
+    pub hung: bool,
+    /// run the calls on a watched worker thread (set by the harnesses that want hang detection; the crash and
+    /// outage harnesses run calls on their own threads)
+    pub watch_hangs: bool,
+    worker: Option<Worker>,
+}
+
+/// One long-lived thread per world runs the calls, so that a call that never returns (a deadlock, a lock
+/// taken twice by the same thread, an endless wait) is noticed by the caller instead of hanging the harness.
+struct Worker {
+    tx: std::sync::mpsc::Sender<Call>,
+    rx: std::sync::mpsc::Receiver<std::thread::Result<Reply>>,
+}
+
+fn step_timeout() -> std::time::Duration {
+    std::time::Duration::from_millis(crate::env_u64("VERIF_STEP_TIMEOUT_MS", 30_000))
 }
 
 /// whether teosd's main() persists the bootstrap tip when no last known block is stored (read from
@@ -187,6 +205,9 @@ impl World {
             chain,
             known_users: Vec::new(),
             panicked: false,
+            hung: false,
+            watch_hangs: false,
+            worker: None,
         };
         // the fillers of the initial chain are not part of any universe
         w.id_of_txid.clear();
@@ -414,8 +435,35 @@ impl World {
 
     fn exec_inner(&mut self, op: &Op) -> Vec<String> {
         let (call, meta) = self.prepare(op);
-        let reply = self.runner().run(call);
-        self.render(&meta, reply)
+        if !self.watch_hangs {
+            let reply = self.runner().run(call);
+            return self.render(&meta, reply);
+        }
+        if self.worker.is_none() {
+            let (tx, crx) = std::sync::mpsc::channel::<Call>();
+            let (rtx, rx) = std::sync::mpsc::channel::<std::thread::Result<Reply>>();
+            let runner = self.runner();
+            std::thread::spawn(move || {
+                while let Ok(call) = crx.recv() {
+                    let r = std::panic::catch_unwind(std::panic::AssertUnwindSafe(|| runner.run(call)));
+                    if rtx.send(r).is_err() {
+                        break;
+                    }
+                }
+            });
+            self.worker = Some(Worker { tx, rx });
+        }
+        let w = self.worker.as_ref().unwrap();
+        w.tx.send(call).expect("worker thread gone");
+        match w.rx.recv_timeout(step_timeout()) {
+            Ok(Ok(reply)) => self.render(&meta, reply),
+            Ok(Err(p)) => std::panic::resume_unwind(p),
+            Err(_) => {
+                self.hung = true;
+                *crate::LAST_PANIC.lock().unwrap() = Some("hang:operation-did-not-return".into());
+                std::panic::resume_unwind(Box::new("hang"))
+            }
+        }
     }
 
     /// What is needed to run calls on the real components from any thread.
